@@ -392,6 +392,7 @@ def counter_amount(P, chk):
     n = 0
     ok = True
     details = []
+    kinds_seen = set()
     for x in bodies:
         for bb, t in x.calls():
             if short(callee_def(t)) == "to_posting_amount":
@@ -405,17 +406,23 @@ def counter_amount(P, chk):
                         inner = prov(x, x.term(r.site)["args"][0])
                         return bool(inner) and all(is_self_amount(y) for y in inner)
                     return False
-                direct = bool(rs) and all(("neg" in r.via) and is_self_amount(r) for r in rs)
-                via_sign = False
+                # every value that can reach the argument is one of the two: -self.amount, or the transferred amount given
+                # the sign of -self.amount.value (one call per case, or one call fed by a match over the two cases)
                 for r in rs:
+                    if ("neg" in r.via) and is_self_amount(r):
+                        kinds_seen.add("direct")
+                        continue
                     if r.kind == "call" and short(r.name) == "amount_with_sign" and r.site is not None:
                         st = x.term(r.site)
                         srs = prov(x, st["args"][1])
-                        via_sign = bool(srs) and all("neg" in y.via and "amount" in y.fields for y in srs)
-                if not (direct or via_sign):
+                        if bool(srs) and all("neg" in y.via and "amount" in y.fields for y in srs):
+                            kinds_seen.add("sign")
+                            continue
                     ok = False
-                    details.append(mir.prov_strs(x, arg))
-    chk.require(ok and n == 2, R_DEST, "Txn::dest_amount|counter posting = -(account amount), or the transferred amount signed like it", d.loc(),
+                    details.append(mir.show_root(r))
+                if not rs:
+                    ok = False
+    chk.require(ok and n in (1, 2) and kinds_seen == {"direct", "sign"}, R_DEST, "Txn::dest_amount|counter posting = -(account amount), or the transferred amount signed like it", d.loc(),
                 "counter amounts: %s (n=%d)" % (details, n), "-self.amount / amount_with_sign(transferred, -self.amount.value)")
     aws = P.body(SE + "::amount_with_sign")
     chk.analysed(aws)
